@@ -565,6 +565,11 @@ func (z *ScriptedPeer) serveCheckpoint(r *gateway.RPCSendCheckpoint, s *gateway.
 	if !ok || b.V2 == nil {
 		return
 	}
+	if alt, ok := z.W.checkpointBlock(b.ID()); ok {
+		// a crafted fork that is consistent with an ALTERED copy of the base block (same id)
+		b = alt
+		z.note("SendCheckpoint", "cp-altered-block", "checkpoint "+z.W.Name(r.Index.ID))
+	}
 	if bogus, ok := z.W.checkpointState(b.ID()); ok {
 		// the crafted block commits to this (bogus) state: the pair passes the id + commitment binding
 		cs = bogus
@@ -615,8 +620,24 @@ func (z *ScriptedPeer) serveCheckpoint(r *gateway.RPCSendCheckpoint, s *gateway.
 			r.Block, r.State = b, cs
 		}
 		s.WriteResponse(r)
-	case "two-payouts":
-		b.MinerPayouts = append(append([]types.SiacoinOutput(nil), b.MinerPayouts...), types.SiacoinOutput{Value: types.Siacoins(1)})
+	case "payouts-empty":
+		// header and transactions intact (the id still matches), MinerPayouts emptied
+		b.MinerPayouts = nil
+		r.Block, r.State = b, cs
+		s.WriteResponse(r)
+	case "payout-value":
+		// one payout, as required, but an inflated value: neither the v2 id nor the commitment
+		// (which binds the miner ADDRESS) covers it
+		b.MinerPayouts = []types.SiacoinOutput{{Address: b.MinerPayouts[0].Address, Value: b.MinerPayouts[0].Value.Add(types.Siacoins(1000000))}}
+		r.Block, r.State = b, cs
+		s.WriteResponse(r)
+	case "payout-address":
+		b.MinerPayouts = []types.SiacoinOutput{{Address: types.Address{0xbd}, Value: b.MinerPayouts[0].Value}}
+		r.Block, r.State = b, cs
+		s.WriteResponse(r)
+	case "two-payouts", "payouts-extra":
+		// the genuine payout first (id and commitment checks still pass), a made-up one appended
+		b.MinerPayouts = append(append([]types.SiacoinOutput(nil), b.MinerPayouts...), types.SiacoinOutput{Address: types.Address{0xee}, Value: types.Siacoins(1000000)})
 		r.Block, r.State = b, cs
 		s.WriteResponse(r)
 	case "body":
